@@ -4,6 +4,8 @@ import (
 	"math"
 	"sync"
 	"time"
+
+	"github.com/internetarchive/Zeno/internal/pkg/verifhook"
 )
 
 const (
@@ -56,10 +58,12 @@ func (tb *tokenBucket) Wait() {
 		tb.refill()
 		if tb.tokens >= 1 {
 			tb.tokens--
+			verifhook.At("rl.take", tb)
 			tb.mu.Unlock()
 			return
 		}
 		tb.mu.Unlock()
+		verifhook.At("rl.poll", tb)
 		time.Sleep(50 * time.Millisecond) // adjust as needed
 	}
 }
